@@ -107,7 +107,7 @@ def run_executor(binary, family, n, seed, tier, procs=None, extra_env=None, plan
             env["VERIF_PLANS"] = plans_dir
         if extra_env:
             env.update(extra_env)
-        p = subprocess.Popen([binary, "-test.run", "^" + test + "$", "-test.timeout", "30m"], cwd=out, env=env,
+        p = subprocess.Popen([binary, "-test.run", "^" + test + "$", "-test.timeout", "150s" if tier == "quick" else "30m"], cwd=out, env=env,
                              stdout=subprocess.PIPE, stderr=subprocess.STDOUT, text=True)
         ps.append((p, out))
         outs.append(out)
